@@ -125,9 +125,11 @@ def make_def(U, rng, idx):
         tparams = rng.sample(["A", "B"], rng.choice([1, 1, 2]))
         zc_params = set(tparams)
     if rng.random() < 0.2:
-        ct = rng.choice(["usize", "u8", "bool", "char", "i32", "u64"])
+        ct = rng.choice(["usize", "u8", "bool", "char", "i32", "u64", "u128", "i128"])
         cv = {"bool": rng.choice([0, 1]), "char": rng.choice([0x41, 0x3b1, 0x1F600])}.get(ct, rng.choice([0, 1, 3, 7, 200]))
-        if ct == "i32" and rng.random() < 0.5:
+        if ct in ("u128", "i128") and rng.random() < 0.6:
+            cv = rng.choice([(1 << 64) + 5, (1 << 100) + 1, (1 << 126) + 9])
+        if ct in ("i32", "i128") and rng.random() < 0.5:
             cv = -cv
         cparams = [(rng.choice(["N", "K", "FLAG"]), ct, cv)]
     # how each type parameter is used: 'bare' (fields of exactly that type), 'inside' (mentioned
